@@ -13,7 +13,7 @@ from harness import dfcommon as DC
 from harness.c06 import length_patterns, KEYDOM
 
 META = {
-    "bounds": {"quick": "<= 3 batches of <= 2 rows (total <= 4), N in {1,2,3}, T in {1,2,3} with symbolic non-decreasing integer "
+    "bounds": {"quick": "<= 3 batches of <= 2 rows (total <= 4), N in {1,2}, T in {1,2} with symbolic non-decreasing integer "
                         "timestamps (gaps in [0,3]); sum/count/mean/var/size/value_counts, windowed groupby by column and by "
                         "streaming series (sum/count/mean/size/var)",
                "thorough": "<= 4 batches of <= 2 rows (total <= 5), N up to 4, T up to 4"},
@@ -94,8 +94,8 @@ def obligations(tier):
     B = 400 if q else 2000
     obls = []
     pats = length_patterns(3, 2, 4) if q else length_patterns(4, 2, 5)
-    Ns = (1, 2, 3) if q else (1, 2, 3, 4)
-    Ts = (1, 2, 3) if q else (1, 2, 3, 4)
+    Ns = (1, 2) if q else (1, 2, 3, 4)
+    Ts = (1, 2) if q else (1, 2, 3, 4)
     specs = []
     for N in Ns:
         for op in ("sum", "count", "mean", "var", "size", "value_counts"):
